@@ -103,7 +103,7 @@ def rand_fields(rng, widths):
 def fixed_packet(rng, ver, nrec=None, count=None):
     hw, rw = (V5_HDR, V5_REC) if ver == 5 else (V7_HDR, V7_REC)
     if nrec is None:
-        nrec = rng.choice([0, 1, 1, 2, 3, 5, 30, 31, 40, 40, 255, 256]) if rng.random() < 0.9 else rng.choice([127, 128, 129, 257])
+        nrec = rng.choice([0, 1, 1, 2, 3, 5, 30, 31, 40]) if rng.random() < 0.97 else rng.choice([127, 128, 129, 255, 256, 257])
     h = rand_fields(rng, hw)
     h[0] = nrec if count is None else count
     recs = []
@@ -275,7 +275,7 @@ class Exporter:
                 if self.conformant and tid in self.v9_o:
                     continue
                 fs = self.v9_t[tid]
-                nrec = rng.choice([0, 1, 1, 2, 3, 5, 12, 40, 255, 256, 257])
+                nrec = rng.choice([0, 1, 1, 2, 3, 5, 12, 40]) if rng.random() < 0.97 else rng.choice([255, 256, 257])
                 size = sum(l for _, l in fs)
                 if size * nrec > 8000:
                     nrec = 8000 // max(1, size)
@@ -394,7 +394,7 @@ class Exporter:
                 pool = [("t", i) for i in have_t] + [("o", i) for i in have_o]
                 kind, tid = rng.choice(pool)
                 fs = self.ix_t[tid] if kind == "t" else self.ix_o[tid][1]
-                nrec = rng.choice([1, 1, 2, 3, 5, 12, 40, 255, 256, 257])
+                nrec = rng.choice([1, 1, 2, 3, 5, 12, 40]) if rng.random() < 0.97 else rng.choice([255, 256, 257])
                 body = b""
                 for _ in range(nrec):
                     if len(body) > 8000:
